@@ -1,18 +1,668 @@
-//! C13 — not built yet (stub).
+//! C13 — saving to a path is all-or-nothing under I/O failure (engine E4: fault / kill-point enumeration).
+//!
+//! Injectors (each exhaustive over an index, nothing sampled):
+//!  sink    in-process failing `io::Write`(+`Seek`) at write-call index i x mode, for the three writer APIs
+//!  rlimit  path save in a forked child under RLIMIT_FSIZE = L (SIGXFSZ ignored), every L / boundary L
+//!  targets unwritable / odd targets (read-only directory, directory target, no extension, missing parent, ...)
+//!  strace-err / strace-kill   errno / SIGKILL injected at the k-th call of every file syscall of the save window
 use crate::common::*;
+use crate::e1::*;
 use crate::pool::*;
-use serde_json::Value;
+use serde_json::{json, Value};
+use std::collections::BTreeMap;
+use std::io::{self, Seek, SeekFrom, Write};
+use std::path::{Path, PathBuf};
+use std::time::Duration;
+
+#[path = "c13_agile.rs"]
+mod agile;
+#[path = "c13_core.rs"]
+mod core;
+#[path = "c13_strace.rs"]
+mod st;
+use self::core::*;
 
 pub fn entry() -> crate::Entry {
     crate::Entry { id: "C13", run, space, replay }
 }
-pub fn space(_tier: Tier, _id: &str) -> Option<Box<dyn Space>> {
-    None
+
+fn push(sink: &mut Sink, f: Finding, tags: &[String], case: &Value) {
+    sink.violations.push(Violation { clause: f.clause.to_string(), symptom: f.symptom, tags: tags.to_vec(), case: case.clone(), detail: f.detail });
 }
-fn replay(_tier: Tier, _case: &Value) -> Vec<Violation> {
-    vec![]
+
+// ---------------------------------------------------------------------------------------------
+// plan: quantities MEASURED on fault-free runs, from which every case list is derived deterministically.
+// Computed by the parent (and by --replay), stored in the work directory, loaded by the pool workers.
+
+#[derive(Clone, Debug, Default)]
+pub struct Plan {
+    /// size of the destination file after a fault-free path save, per workload
+    pub size: BTreeMap<String, u64>,
+    /// number of write calls of a fault-free run, per "<api>/<chunk>"
+    pub sink_calls: BTreeMap<String, u64>,
+    /// syscalls of the save window of a fault-free traced run, per "<workload>/<dest>": (name, ordinal since exec, args, result)
+    pub windows: BTreeMap<String, Vec<st::Sys>>,
+    pub strace_ok: bool,
+    pub strace_note: String,
+    pub drop_priv_ok: bool,
 }
-fn run(_ctx: &Ctx) -> i32 {
-    eprintln!("MACHINERY: C13 is not built yet");
-    2
+impl Plan {
+    fn to_json(&self) -> Value {
+        let w: BTreeMap<String, Vec<Value>> = self.windows.iter().map(|(k, v)| (k.clone(), v.iter().map(|s| s.to_json()).collect())).collect();
+        json!({"size": self.size, "sink_calls": self.sink_calls, "windows": w, "strace_ok": self.strace_ok, "strace_note": self.strace_note, "drop_priv_ok": self.drop_priv_ok})
+    }
+    fn from_json(v: &Value) -> Option<Plan> {
+        let mut p = Plan::default();
+        for (k, x) in v["size"].as_object()? {
+            p.size.insert(k.clone(), x.as_u64()?);
+        }
+        for (k, x) in v["sink_calls"].as_object()? {
+            p.sink_calls.insert(k.clone(), x.as_u64()?);
+        }
+        for (k, x) in v["windows"].as_object()? {
+            p.windows.insert(k.clone(), x.as_array()?.iter().filter_map(st::Sys::from_json).collect());
+        }
+        p.strace_ok = v["strace_ok"].as_bool()?;
+        p.strace_note = v["strace_note"].as_str().unwrap_or("").to_string();
+        p.drop_priv_ok = v["drop_priv_ok"].as_bool()?;
+        Some(p)
+    }
 }
+fn plan_path(tier: Tier) -> String {
+    format!("{}/plan-{}.json", work_dir("C13"), tier.name())
+}
+fn is_worker() -> bool {
+    std::env::args().nth(1).as_deref() == Some("--worker")
+}
+
+fn compute_plan(tier: Tier, fx: &Fx) -> Plan {
+    let mut p = Plan::default();
+    // (1) fault-free forked path saves: sizes (also proves the fork runner and the reference agree)
+    for wl in WLS {
+        let cd = CaseDir::create(&format!("plan-size-{}", wl.name()));
+        cd.prepare(fx, wl, Pre::Absent);
+        let (dest, src) = (cd.dest(wl), cd.src());
+        let o = run_forked(&ChildCfg { fsize: None, drop_priv: false, timeout: Duration::from_secs(60) }, || fx.do_save(wl, &dest, &src));
+        let d = read_dest(&dest);
+        let ok = match (&o, &d) {
+            (Res::Ok, Dest::File(b)) => fx.is_complete_new(wl, b).map(|_| b.len() as u64),
+            _ => Err(format!("{} / {:?}", o.text(), listing(&cd.d))),
+        };
+        cd.remove();
+        match ok {
+            Ok(n) => {
+                p.size.insert(wl.name().into(), n);
+            }
+            Err(e) => {
+                eprintln!("MACHINERY: C13 fault-free save of workload {} does not produce the complete new file: {}", wl.name(), e);
+                std::process::exit(2);
+            }
+        }
+    }
+    // (2) write-call counts of the sink APIs
+    for api in SINK_APIS {
+        for chunk in SINK_CHUNKS {
+            let mut s = FaultySink::new(chunk, u64::MAX, Mode::ErrNow);
+            let o = run_guarded(|| sink_call(fx, api, &mut s));
+            if o != Res::Ok {
+                eprintln!("MACHINERY: C13 fault-free sink run {} fails: {}", api, o.text());
+                std::process::exit(2);
+            }
+            p.sink_calls.insert(format!("{}/{}", api, chunk), s.calls);
+        }
+    }
+    // (3) privilege drop probe (permission bits do not bind for root)
+    {
+        // the unprivileged child must still be able to reach the work directory
+        let cd = CaseDir::create("plan-priv");
+        std::fs::write(cd.aux.join("probe"), b"x").unwrap();
+        let probe = cd.aux.join("probe");
+        let o = run_forked(&ChildCfg { fsize: None, drop_priv: true, timeout: Duration::from_secs(10) }, || std::fs::read(&probe).map(|_| ()).map_err(|e| e.to_string()));
+        cd.remove();
+        p.drop_priv_ok = o == Res::Ok;
+    }
+    // (4) syscall census of the save windows
+    st::census(tier, fx, &mut p);
+    p
+}
+
+static PLAN: std::sync::OnceLock<Plan> = std::sync::OnceLock::new();
+
+fn get_plan(tier: Tier, fx: &Fx) -> Plan {
+    if let Some(p) = PLAN.get() {
+        return p.clone();
+    }
+    let path = plan_path(tier);
+    if is_worker() {
+        if let Some(p) = std::fs::read_to_string(&path).ok().and_then(|t| serde_json::from_str::<Value>(&t).ok()).and_then(|v| Plan::from_json(&v)) {
+            return p;
+        }
+    }
+    let p = compute_plan(tier, fx);
+    let _ = std::fs::write(&path, serde_json::to_string(&p.to_json()).unwrap());
+    let _ = PLAN.set(p.clone());
+    p
+}
+
+// ---------------------------------------------------------------------------------------------
+// (a) failing sink
+
+#[derive(Clone, Copy, PartialEq, Eq, Debug)]
+pub enum Mode {
+    ErrNow,
+    ShortThenErr,
+    Interrupted,
+    Zero,
+}
+const MODES: [Mode; 4] = [Mode::ErrNow, Mode::ShortThenErr, Mode::Interrupted, Mode::Zero];
+impl Mode {
+    fn name(self) -> &'static str {
+        match self {
+            Mode::ErrNow => "enospc",
+            Mode::ShortThenErr => "short1-then-enospc",
+            Mode::Interrupted => "interrupted-once",
+            Mode::Zero => "ok0",
+        }
+    }
+}
+const SINK_APIS: [&str; 5] = ["xlsx::write_writer", "xlsx::write_writer_light", "xlsx::write_writer/64k", "csv::write_writer/small", "csv::write_writer"];
+/// bytes the healthy sink accepts per call (0 = everything): a sink that takes the data in pieces turns the
+/// single `write_all` of the library into many write calls, so the failing call index is a real dimension
+const SINK_CHUNKS: [usize; 3] = [0, 4096, 512];
+
+pub struct FaultySink {
+    pub data: Vec<u8>,
+    pos: usize,
+    chunk: usize,
+    pub calls: u64,
+    fail_at: u64,
+    mode: Mode,
+    /// an Err / Ok(0) was returned to the caller
+    pub hard: bool,
+    pub interrupted: bool,
+}
+impl FaultySink {
+    fn new(chunk: usize, fail_at: u64, mode: Mode) -> FaultySink {
+        FaultySink { data: vec![], pos: 0, chunk, calls: 0, fail_at, mode, hard: false, interrupted: false }
+    }
+    fn accept(&mut self, buf: &[u8], max: usize) -> usize {
+        let n = buf.len().min(max);
+        let end = self.pos + n;
+        if self.data.len() < end {
+            self.data.resize(end, 0);
+        }
+        self.data[self.pos..end].copy_from_slice(&buf[..n]);
+        self.pos = end;
+        n
+    }
+}
+impl Write for FaultySink {
+    fn write(&mut self, buf: &[u8]) -> io::Result<usize> {
+        if buf.is_empty() {
+            return Ok(0);
+        }
+        let idx = self.calls;
+        self.calls += 1;
+        let full = || io::Error::from_raw_os_error(libc::ENOSPC);
+        match self.mode {
+            Mode::ErrNow if idx >= self.fail_at => {
+                self.hard = true;
+                return Err(full());
+            }
+            Mode::ShortThenErr if idx == self.fail_at => return Ok(self.accept(buf, 1)),
+            Mode::ShortThenErr if idx > self.fail_at => {
+                self.hard = true;
+                return Err(full());
+            }
+            Mode::Interrupted if idx == self.fail_at => {
+                self.interrupted = true;
+                return Err(io::Error::from(io::ErrorKind::Interrupted));
+            }
+            Mode::Zero if idx >= self.fail_at => {
+                self.hard = true;
+                return Ok(0);
+            }
+            _ => {}
+        }
+        let max = if self.chunk == 0 { usize::MAX } else { self.chunk };
+        Ok(self.accept(buf, max))
+    }
+    fn flush(&mut self) -> io::Result<()> {
+        Ok(())
+    }
+}
+impl Seek for FaultySink {
+    fn seek(&mut self, to: SeekFrom) -> io::Result<u64> {
+        let n = match to {
+            SeekFrom::Start(o) => o as i64,
+            SeekFrom::End(o) => self.data.len() as i64 + o,
+            SeekFrom::Current(o) => self.pos as i64 + o,
+        };
+        if n < 0 {
+            return Err(io::Error::from(io::ErrorKind::InvalidInput));
+        }
+        self.pos = n as usize;
+        Ok(n as u64)
+    }
+}
+
+fn sink_wl(api: &str) -> Wl {
+    match api {
+        "xlsx::write_writer" => Wl::Xlsx,
+        "xlsx::write_writer_light" => Wl::Light,
+        "xlsx::write_writer/64k" => Wl::Xlsx64k,
+        "csv::write_writer/small" => Wl::CsvSmall,
+        _ => Wl::Csv,
+    }
+}
+fn sink_call(fx: &Fx, api: &str, s: &mut FaultySink) -> Result<(), String> {
+    use umya_spreadsheet::writer::{csv, xlsx};
+    let wl = sink_wl(api);
+    let r = match wl {
+        Wl::Xlsx | Wl::Xlsx64k => xlsx::write_writer(fx.book(wl), s),
+        Wl::Light => xlsx::write_writer_light(fx.book(wl), s),
+        _ => csv::write_writer(fx.book(wl), s, &umya_spreadsheet::structs::CsvWriterOption::default()),
+    };
+    r.map_err(|e| format!("{:?}", e))
+}
+
+#[derive(Clone, Debug)]
+struct SinkCase {
+    api: &'static str,
+    chunk: usize,
+    mode: Mode,
+    i: u64,
+    n: u64,
+}
+struct SinkSpace {
+    fx: Fx,
+    cases: Vec<SinkCase>,
+}
+fn sink_cases(p: &Plan) -> Vec<SinkCase> {
+    let mut v = vec![];
+    for api in SINK_APIS {
+        for chunk in SINK_CHUNKS {
+            let n = *p.sink_calls.get(&format!("{}/{}", api, chunk)).unwrap_or(&0);
+            for mode in MODES {
+                for i in 0..=n {
+                    v.push(SinkCase { api, chunk, mode, i, n });
+                }
+            }
+        }
+    }
+    v
+}
+impl SinkSpace {
+    fn pos(c: &SinkCase) -> &'static str {
+        if c.i >= c.n {
+            "call:beyond-last"
+        } else if c.i == 0 {
+            "call:first"
+        } else if c.i + 1 == c.n {
+            "call:last"
+        } else {
+            "call:middle"
+        }
+    }
+}
+impl Space for SinkSpace {
+    fn len(&self) -> u64 {
+        self.cases.len() as u64
+    }
+    fn describe(&self, i: u64) -> Value {
+        let c = &self.cases[i as usize];
+        json!({"injector":"sink","api": c.api, "sink_accepts_per_call": if c.chunk == 0 {json!("all")} else {json!(c.chunk)}, "mode": c.mode.name(), "fail_at_write_call": c.i, "write_calls_fault_free": c.n})
+    }
+    fn tags(&self, i: u64) -> Vec<String> {
+        let c = &self.cases[i as usize];
+        vec![format!("sink/{}/{}", c.api, c.mode.name()), "inj:sink".into(), format!("api:{}", c.api), format!("mode:{}", c.mode.name()), Self::pos(c).into()]
+    }
+    fn run(&self, i: u64, sink: &mut Sink) {
+        let c = &self.cases[i as usize];
+        let tags = self.tags(i);
+        let case = self.describe(i);
+        sink.evaluations += 1;
+        let mut s = FaultySink::new(c.chunk, c.i, c.mode);
+        let o = run_guarded(|| sink_call(&self.fx, c.api, &mut s));
+        let wl = sink_wl(c.api);
+        let fired = s.hard || s.interrupted || (c.mode == Mode::ShortThenErr && c.i < c.n);
+        if fired {
+            sink.obs(&format!("sink|{}|{}|{}|{}|{}|{}", c.api, c.chunk, c.mode.name(), o.kind(), s.data.len(), s.calls));
+        }
+        sink.count(&format!("sink:{}", o.kind()), 1);
+        match &o {
+            Res::Panic { file, msg } => push(sink, Finding { clause: "sink-error-returned", symptom: panic_symptom(file, msg), detail: format!("{} panicked on a failing caller-supplied writer instead of returning the error: {} ({})", c.api, msg, file) }, &tags, &case),
+            Res::Ok => {
+                if s.hard {
+                    push(sink, Finding { clause: "sink-error-returned", symptom: "sink-error-swallowed".into(), detail: format!("{}: the writer returned an error / Ok(0) at call {} but the save returned Ok(())", c.api, c.i) }, &tags, &case);
+                } else if let Err(e) = self.fx.is_complete_new(wl, &s.data) {
+                    push(sink, Finding { clause: "sink-output-complete", symptom: "ok-but-output-incomplete".into(), detail: format!("{} returned Ok(()) (no hard fault delivered) but the sink holds an incomplete output: {}", c.api, e) }, &tags, &case);
+                }
+            }
+            Res::Err(e) => {
+                if !s.hard {
+                    let sym = if s.interrupted { "interrupted-not-retried" } else { "spurious-error" };
+                    push(sink, Finding { clause: "sink-error-returned", symptom: sym.into(), detail: format!("{} returned Err({}) although the writer never failed hard", c.api, e) }, &tags, &case);
+                }
+            }
+            other => push(sink, Finding { clause: "harness", symptom: "machinery".into(), detail: other.text() }, &tags, &case),
+        }
+    }
+}
+
+// ---------------------------------------------------------------------------------------------
+// (b) RLIMIT_FSIZE
+
+struct RlimitSpace {
+    fx: Fx,
+    /// (workload, destination before, limits)
+    groups: Vec<(Wl, Pre, Vec<u64>)>,
+    sizes: BTreeMap<String, u64>,
+}
+fn boundary_limits(size: u64) -> Vec<u64> {
+    let mut v: Vec<u64> = vec![0, 1, 2, 511, 512, 513, size.saturating_sub(2), size.saturating_sub(1), size, size + 1];
+    let mut n = 4096;
+    while n <= size + 4096 {
+        v.extend([n - 1, n, n + 1]);
+        n += 4096;
+    }
+    // the last BufWriter-buffer-full of the file is where a swallowed flush matters
+    if size > BUF {
+        v.extend([size - BUF - 1, size - BUF, size - BUF + 1]);
+    }
+    v.retain(|l| *l <= size + 1);
+    v.sort();
+    v.dedup();
+    v
+}
+fn rlimit_every(tier: Tier, wl: Wl) -> Option<u64> {
+    // Some(step): every step-th L plus the boundaries; None: boundaries only
+    match (tier, wl) {
+        (_, Wl::Xlsx) | (_, Wl::Light) | (_, Wl::CsvSmall) => Some(1),
+        (Tier::Thorough, Wl::Xlsx64k) | (Tier::Thorough, Wl::Csv) => Some(1),
+        (Tier::Thorough, _) => Some(THOROUGH_CFB_STEP),
+        _ => None,
+    }
+}
+/// encrypted saves cost ~100 ms each (3 x 100000 SHA-512 spins inside `encrypt`), so the thorough tier walks the
+/// compound file in steps (plus all boundaries) instead of byte by byte; stated in bounds and caps_hit
+const THOROUGH_CFB_STEP: u64 = 32;
+fn rlimit_groups(tier: Tier, p: &Plan) -> Vec<(Wl, Pre, Vec<u64>)> {
+    let mut g = vec![];
+    for wl in WLS {
+        let size = *p.size.get(wl.name()).unwrap_or(&0);
+        let mut ls = boundary_limits(size);
+        if let Some(step) = rlimit_every(tier, wl) {
+            let mut l = 0;
+            while l <= size {
+                ls.push(l);
+                l += step;
+            }
+            ls.sort();
+            ls.dedup();
+        }
+        for pre in [Pre::Absent, Pre::Old] {
+            g.push((wl, pre, ls.clone()));
+        }
+    }
+    g
+}
+impl RlimitSpace {
+    fn locate(&self, mut i: u64) -> (Wl, Pre, u64) {
+        for (wl, pre, ls) in &self.groups {
+            if i < ls.len() as u64 {
+                return (*wl, *pre, ls[i as usize]);
+            }
+            i -= ls.len() as u64;
+        }
+        panic!("index out of range")
+    }
+    fn pos(size: u64, l: u64) -> &'static str {
+        if l >= size {
+            "limit:not-binding"
+        } else if size - l < BUF {
+            "limit:in-last-8k"
+        } else {
+            "limit:before-last-8k"
+        }
+    }
+}
+impl Space for RlimitSpace {
+    fn len(&self) -> u64 {
+        self.groups.iter().map(|g| g.2.len() as u64).sum()
+    }
+    fn describe(&self, i: u64) -> Value {
+        let (wl, pre, l) = self.locate(i);
+        json!({"injector":"rlimit_fsize","workload": wl.name(), "api": wl.api(), "destination_before": pre.name(), "limit_bytes": l, "fault_free_size": self.sizes[wl.name()]})
+    }
+    fn tags(&self, i: u64) -> Vec<String> {
+        let (wl, pre, l) = self.locate(i);
+        let pos = Self::pos(self.sizes[wl.name()], l);
+        vec![format!("{}/rlimit/{}", wl.name(), pos), format!("wl:{}", wl.name()), "inj:rlimit".into(), pos.into(), format!("dest:{}", pre.name())]
+    }
+    fn run(&self, i: u64, sink: &mut Sink) {
+        let (wl, pre, l) = self.locate(i);
+        let size = self.sizes[wl.name()];
+        let tags = self.tags(i);
+        let case = self.describe(i);
+        sink.evaluations += 1;
+        let cd = CaseDir::create(&format!("rl-{}", i));
+        cd.prepare(&self.fx, wl, pre);
+        let (dest, src) = (cd.dest(wl), cd.src());
+        let o = run_forked(&ChildCfg { fsize: Some(l), drop_priv: false, timeout: Duration::from_secs(30) }, || self.fx.do_save(wl, &dest, &src));
+        let d = read_dest(&dest);
+        let ls = listing(&cd.d);
+        cd.remove();
+        let before = if pre == Pre::Old { Before::Old } else { Before::Absent };
+        let (dclass, fs) = judge(&self.fx, wl, before, &o, &d, false);
+        if l < size {
+            sink.obs(&format!("rlimit|{}|{}|{}|{}|{:?}", wl.name(), pre.name(), o.kind(), dclass, ls));
+        } else if o != Res::Ok {
+            push(sink, Finding { clause: "control", symptom: "fails-without-fault".into(), detail: format!("limit {} >= size {} but {}", l, size, o.text()) }, &tags, &case);
+        }
+        sink.count(&format!("rlimit:{}:{}", o.kind(), dclass), 1);
+        for mut f in fs {
+            f.detail = format!("RLIMIT_FSIZE={} (fault-free size {}): {}; directory afterwards {:?}", l, size, f.detail, ls);
+            push(sink, f, &tags, &case);
+        }
+    }
+}
+
+// ---------------------------------------------------------------------------------------------
+// (e) unwritable / odd targets
+
+const SCENARIOS: [&str; 9] = ["control", "dir-readonly", "target-is-empty-directory", "target-is-nonempty-directory", "no-extension", "non-utf8-extension", "parent-missing", "temp-name-is-directory", "dir-readonly-temp-exists"];
+struct TargetSpace {
+    fx: Fx,
+    drop_priv_ok: bool,
+}
+impl TargetSpace {
+    fn locate(&self, i: u64) -> (Wl, &'static str, Pre) {
+        let per = SCENARIOS.len() as u64 * 2;
+        let wl = WLS[(i / per) as usize];
+        let r = i % per;
+        (wl, SCENARIOS[(r / 2) as usize], if r % 2 == 0 { Pre::Absent } else { Pre::Old })
+    }
+    fn applicable(sc: &str, pre: Pre) -> bool {
+        // a pre-existing FILE at the destination contradicts a directory at the destination / a missing parent
+        !(pre == Pre::Old && matches!(sc, "target-is-empty-directory" | "target-is-nonempty-directory" | "parent-missing"))
+    }
+}
+impl Space for TargetSpace {
+    fn len(&self) -> u64 {
+        (WLS.len() * SCENARIOS.len() * 2) as u64
+    }
+    fn describe(&self, i: u64) -> Value {
+        let (wl, sc, pre) = self.locate(i);
+        json!({"injector":"target","workload": wl.name(), "api": wl.api(), "scenario": sc, "destination_before": pre.name(), "applicable": Self::applicable(sc, pre)})
+    }
+    fn tags(&self, i: u64) -> Vec<String> {
+        let (wl, sc, pre) = self.locate(i);
+        vec![format!("{}/target/{}", wl.name(), sc), format!("wl:{}", wl.name()), "inj:target".into(), format!("target:{}", sc), format!("dest:{}", pre.name())]
+    }
+    fn run(&self, i: u64, sink: &mut Sink) {
+        use std::os::unix::ffi::OsStrExt;
+        use std::os::unix::fs::PermissionsExt;
+        let (wl, sc, pre) = self.locate(i);
+        if !Self::applicable(sc, pre) {
+            sink.count("targets:not-applicable", 1);
+            return;
+        }
+        let readonly = sc.starts_with("dir-readonly");
+        if readonly && !self.drop_priv_ok {
+            sink.count("targets:skipped-no-privilege-drop", 1);
+            return;
+        }
+        let tags = self.tags(i);
+        let case = self.describe(i);
+        sink.evaluations += 1;
+        let cd = CaseDir::create(&format!("tg-{}", i));
+        let mut dest = cd.dest(wl);
+        let mut before = if pre == Pre::Old { Before::Old } else { Before::Absent };
+        match sc {
+            "no-extension" => dest = cd.d.join("book"),
+            "non-utf8-extension" => dest = cd.d.join(std::ffi::OsStr::from_bytes(b"book.x\xffl")),
+            "parent-missing" => dest = cd.d.join("no-such-dir").join(format!("book.{}", wl.ext())),
+            _ => {}
+        }
+        if wl == Wl::SetPw {
+            std::fs::write(cd.src(), &self.fx.src_xlsx).unwrap();
+        }
+        if pre == Pre::Old {
+            std::fs::write(&dest, self.fx.old_bytes(wl)).unwrap();
+        }
+        let mut tmp_name = dest.clone().into_os_string();
+        tmp_name.push("tmp");
+        let tmp = PathBuf::from(tmp_name);
+        match sc {
+            "target-is-empty-directory" => {
+                std::fs::create_dir(&dest).unwrap();
+                before = Before::Directory;
+            }
+            "target-is-nonempty-directory" => {
+                std::fs::create_dir(&dest).unwrap();
+                std::fs::write(dest.join("inner.txt"), b"x").unwrap();
+                before = Before::Directory;
+            }
+            "temp-name-is-directory" => std::fs::create_dir(&tmp).unwrap(),
+            "dir-readonly-temp-exists" => std::fs::write(&tmp, b"stale temp file of somebody else").unwrap(),
+            _ => {}
+        }
+        if readonly {
+            // everything root-owned, directory r-x for everybody: user 65534 can neither create nor rename here
+            std::fs::set_permissions(&cd.d, std::fs::Permissions::from_mode(0o555)).unwrap();
+            let _ = std::fs::set_permissions(&cd.aux, std::fs::Permissions::from_mode(0o755));
+        } else {
+            // the child may run as root or not; nothing to do
+        }
+        let src = cd.src();
+        let o = run_forked(&ChildCfg { fsize: None, drop_priv: readonly, timeout: Duration::from_secs(30) }, || self.fx.do_save(wl, &dest, &src));
+        let d = read_dest(&dest);
+        let ls = listing(&cd.d);
+        let inner_ok = sc != "target-is-nonempty-directory" || dest.join("inner.txt").exists();
+        cd.remove();
+        let (dclass, mut fs) = judge(&self.fx, wl, before, &o, &d, false);
+        sink.obs(&format!("target|{}|{}|{}|{}|{}|{:?}", wl.name(), sc, pre.name(), o.kind(), dclass, ls));
+        sink.count(&format!("targets:{}:{}", o.kind(), dclass), 1);
+        if !inner_ok {
+            fs.push(Finding { clause: "destination-intact", symptom: "directory-target-emptied".into(), detail: "the directory at the destination lost its content".into() });
+        }
+        // scenarios in which the save cannot legitimately succeed / must succeed
+        let must_fail = readonly || matches!(sc, "target-is-empty-directory" | "target-is-nonempty-directory" | "parent-missing");
+        if must_fail && o == Res::Ok && dclass == "new" {
+            fs.push(Finding { clause: "harness", symptom: "fault-did-not-bind".into(), detail: format!("scenario {} did not make the target unwritable", sc) });
+        }
+        if sc == "control" && (o != Res::Ok || dclass != "new") && fs.is_empty() {
+            fs.push(Finding { clause: "control", symptom: "fails-without-fault".into(), detail: format!("healthy target but {} / destination {}", o.text(), dclass) });
+        }
+        for mut f in fs {
+            f.detail = format!("target scenario {}: {}; directory afterwards {:?}", sc, f.detail, ls);
+            push(sink, f, &tags, &case);
+        }
+    }
+}
+
+// ---------------------------------------------------------------------------------------------
+pub fn space(tier: Tier, id: &str) -> Option<Box<dyn Space>> {
+    if let Some(rest) = id.strip_prefix("child:") {
+        return st::child_space(rest);
+    }
+    let fx = Fx::new();
+    let p = get_plan(tier, &fx);
+    match id {
+        "sink" => Some(Box::new(SinkSpace { cases: sink_cases(&p), fx })),
+        "rlimit" => Some(Box::new(RlimitSpace { groups: rlimit_groups(tier, &p), sizes: p.size.clone(), fx })),
+        "targets" => Some(Box::new(TargetSpace { fx, drop_priv_ok: p.drop_priv_ok })),
+        "strace-err" => Some(Box::new(st::StraceSpace::new(tier, fx, &p, false))),
+        "strace-kill" => Some(Box::new(st::StraceSpace::new(tier, fx, &p, true))),
+        _ => None,
+    }
+}
+
+fn replay(tier: Tier, case: &Value) -> Vec<Violation> {
+    replay_e1(space(tier, case["_space"].as_str().unwrap_or("")), case)
+}
+
+fn run(ctx: &Ctx) -> i32 {
+    let fx = Fx::new();
+    // always re-measure in the parent; the workers load the stored plan
+    let p = compute_plan(ctx.tier, &fx);
+    let _ = PLAN.set(p.clone());
+    if std::env::var("C13_DUMP_PLAN").is_ok() {
+        println!("{}", serde_json::to_string_pretty(&p.to_json()).unwrap());
+        return 0;
+    }
+    if let Err(e) = std::fs::write(plan_path(ctx.tier), serde_json::to_string(&p.to_json()).unwrap()) {
+        eprintln!("MACHINERY: cannot store the C13 plan: {}", e);
+        return 2;
+    }
+    let thorough = ctx.tier == Tier::Thorough;
+    let ids = ["sink", "rlimit", "targets", "strace-err", "strace-kill"];
+    let mut spaces: Vec<(&'static str, Box<dyn Space>)> = vec![];
+    for id in ids {
+        let sp = space(ctx.tier, id).unwrap();
+        if sp.len() > 0 {
+            spaces.push((id, sp));
+        }
+    }
+    let mut caps = vec![];
+    let mut assumptions = vec![
+        "the complete new file is defined by the library's own in-memory writer on a healthy sink (byte-identical, or every zip member readable and the same workbook projection after read_reader); encrypted outputs are opened by an independent agile decryptor (HMAC verified) and the decrypted package is compared the same way".to_string(),
+        "observer / kill granularity is the system-call boundary (strace stops the process on entry of the k-th call); torn writes inside one write call and power-loss durability are not explored".to_string(),
+        "temporary-file leftovers are not violations (the statement does not forbid them)".to_string(),
+        "strace error injection replaces the system call (it is not executed); read-only opens and lseek are not injected".to_string(),
+    ];
+    if !p.strace_ok {
+        caps.push(format!("strace injection unavailable in this environment ({}): syscall-level error and SIGKILL enumeration skipped", p.strace_note));
+    }
+    if !p.drop_priv_ok {
+        caps.push("cannot switch to an unprivileged uid: read-only-directory scenarios skipped (permission bits do not bind for root)".to_string());
+    } else {
+        assumptions.push("read-only-directory scenarios run the save as uid/gid 65534 in the forked child because permission bits do not bind for root".to_string());
+    }
+    if p.strace_ok {
+        caps.push("encrypted workloads issue ~6200 system calls per save and every traced run costs ~0.3 s: syscall-level points are taken at the strides stated in bounds.strace (all other workloads: every call)".to_string());
+    }
+    if thorough {
+        caps.push(format!("encrypted workloads under RLIMIT_FSIZE: every {}th byte limit plus all boundary values (each encrypted save costs ~0.1 s)", THOROUGH_CFB_STEP));
+    }
+    let windows: BTreeMap<String, Vec<String>> = p.windows.iter().map(|(k, v)| (k.clone(), v.iter().map(|s| format!("{}#{}", s.name, s.ordinal)).collect())).collect();
+    run_e1(
+        ctx,
+        E1Spec {
+            spaces,
+            cfg: PoolCfg { chunk: 8, case_timeout: Duration::from_secs(120), ..Default::default() },
+            level: "fault_enumeration",
+            rule: "five injectors, each enumerated completely over its index: (sink) every write-call index 0..=N of a fault-free run (N measured per API and per accepted-bytes-per-call) x 4 failure modes; (rlimit) path save in a forked child under RLIMIT_FSIZE=L with SIGXFSZ ignored for every L in 0..=size (small workloads; big ones: see bounds) x destination absent/old; (targets) 9 target scenarios x 8 workloads x destination absent/old; (strace-err) errno injected at the k-th call of every openat(create)/write/pwrite64/rename/close/fsync/ftruncate of the save window of a traced child (window = between two marker openat calls, ordinals taken from a fault-free census run), plus pairs (write k fails AND every unlink fails); (strace-kill) SIGKILL on entry of every system call of the window and of the end marker. Oracle: Err, or Ok with destination == complete new file; a pre-existing destination is byte-identical old or complete new; no panic. distinct_nontrivial = distinct (workload, fault, outcome kind, destination class, directory listing with sizes) observations among the cases whose fault actually fired".into(),
+            alphabets: json!({"workloads": WLS.iter().map(|w| w.name()).collect::<Vec<_>>(), "destination_before": ["absent", "old"], "sink_apis": SINK_APIS, "sink_modes": MODES.iter().map(|m| m.name()).collect::<Vec<_>>(), "sink_accepts_per_call": SINK_CHUNKS, "target_scenarios": SCENARIOS, "strace_errors": st::error_menu_json(), "fault_free_sizes": p.size, "sink_write_calls": p.sink_calls, "save_window_syscalls": windows}),
+            bounds: json!({"rlimit": if thorough {format!("every L in 0..=size for xlsx-write, xlsx-write-light, xlsx-write-64k, csv-small, csv; every {}th L + boundaries for the three encrypted workloads", THOROUGH_CFB_STEP)} else {"every L in 0..=size for xlsx-write, xlsx-write-light, csv-small; boundary L (0,1,2,511..513,n*4096-1..+1,size-8192-1..+1,size-2..size+1) for xlsx-write-64k, csv and the three encrypted workloads".to_string()}, "strace": st::bounds_json(ctx.tier)}),
+            exhaustive: caps.is_empty(),
+            caps_hit: caps.clone(),
+            assumptions,
+            min_distinct: 50,
+        },
+    )
+}
+
+#[allow(dead_code)]
+fn _unused(_: &Path) {}
